@@ -518,11 +518,27 @@ class Exec:
             return
         c = self.world.call('send', sid, data)
         c.sess = s
+        c.target_state = self.model_state(s)
         s.app_sent.append({'t': self.now, 'tag': find_tag(data), 'data': data, 'call': c,
-                           'step': len(self.actions),
+                           'step': len(self.actions), 'target_state': c.target_state,
                            'after': set(x['tag'] for x in s.app_sent if x['call'].done),
                            'upg_state': self.upg_state(s),
                            'poll_pending': any(not q.done for q in s.polls)})
+
+    def model_state(self, s):
+        """'live' | 'ended' | 'rejected' | 'unopened' as the handler log tells it right now; None
+        when the world is not quiet (the state the call will meet is then unknown)."""
+        n = len(self.actions) - 1
+        if not (n == 0 or n in self.quiet_points):
+            return None
+        if self.sid_of(s) is None:
+            return 'unopened'
+        if not s.expect_accept:
+            return 'rejected'
+        evs = self.events_for(s)
+        if not any(e == 'connect' for _, e, _ in evs):
+            return 'unopened'
+        return 'ended' if any(e == 'disconnect' for _, e, _ in evs) else 'live'
 
     def live_view(self):
         """{ord: 'websocket' | 'polling-poll-pending' | 'polling-no-poll-pending'} of the sessions
@@ -576,7 +592,7 @@ class Exec:
 
     def op_api(self, a):
         s = self.sess(a['s'])
-        sid = a.get('sid') or (self.sid_of(s) if s else None) or 'nosuchsid'
+        sid = a['sid'] if 'sid' in a else ((self.sid_of(s) if s else None) or 'nosuchsid')
         name = a['name']
         if name == 'session':
             c = self.world.session_ctx(sid, a.get('key'), a.get('val'))
@@ -586,6 +602,8 @@ class Exec:
             c = self.world.call(name, sid)
         c.sess = s
         c.action = a
+        c.target_state = self.model_state(s) if s is not None else 'foreign'
+        c.judge = self._quiet_issue(a)
 
     def op_fault(self, a):
         self.world.app_log.fault[a['event']] += 1
@@ -642,6 +660,8 @@ class Exec:
                     self.world.ws_client_close(s.upg)
                     s.upg.t_peer_closed = self.now
         self.drained_at = self.now
+        if isinstance(horizon, (list, tuple)):
+            horizon = horizon[0] * self.I + horizon[1] * self.T
         if horizon is None:
             horizon = 2 * (self.I + self.T) + self.T
         self.pass_time(horizon)
@@ -766,6 +786,9 @@ class Drawer:
         d = self.draw
         tr = d(st.sampled_from(self.profile.get('open_transports', ['polling', 'polling',
                                                                      'websocket'])))
+        allowed = self.ex.config.get('transports') or ['polling', 'websocket']
+        if tr not in allowed and d(st.integers(0, 9)) < 9:
+            tr = allowed[0]
         a = {'op': 'open', 'transport': tr,
              'autopong': d(st.sampled_from(self.profile.get('autopong', [True, True, False]))),
              'autopoll': d(st.sampled_from(self.profile.get('autopoll', [False, True])))}
